@@ -181,6 +181,8 @@ pub fn make_plan(tier: Tier, mode: Mode, cfg: &EngineConfig, seeds: Vec<Seed>, s
     for (si, s) in seeds.iter().enumerate() {
         match s.class {
             "zero" => units.push(Unit { seed: si, kind: UnitKind::Zero }),
+            // synthesised families: the pristine case and the extension atoms only
+            "synth" => units.push(Unit { seed: si, kind: UnitKind::K1 { lo: 0, hi: 0 } }),
             _ => {
                 if s.class == "table" && s.data.len() > b.k1_seed_cap {
                     n_seed_skipped += 1;
@@ -216,10 +218,11 @@ pub fn make_plan(tier: Tier, mode: Mode, cfg: &EngineConfig, seeds: Vec<Seed>, s
             _ => 0,
         };
         let c = match seeds[u.seed].class {
-            "table" | "file" if lo < 2048 => 0u8,
-            "table" | "file" => 4,
-            "static" => 1,
-            _ => 2,
+            "synth" => 0u8,
+            "table" | "file" if lo < 2048 => 1,
+            "table" | "file" => 5,
+            "static" => 2,
+            _ => 3,
         };
         (c, lo, u.seed)
     };
@@ -261,13 +264,14 @@ pub fn make_plan(tier: Tier, mode: Mode, cfg: &EngineConfig, seeds: Vec<Seed>, s
     }
     // k=2 units (rank 3) go before the rank-4 tail
     units.sort_by_key(|u| match u.kind {
-        UnitKind::K2 { .. } => 3u8,
-        UnitKind::Zero => 2,
+        UnitKind::K2 { .. } => 4u8,
+        UnitKind::Zero => 3,
         UnitKind::K1 { lo, .. } => match seeds[u.seed].class {
-            "table" | "file" if lo < 2048 => 0,
-            "table" | "file" => 4,
-            "static" => 1,
-            _ => 2,
+            "synth" => 0,
+            "table" | "file" if lo < 2048 => 1,
+            "table" | "file" => 5,
+            "static" => 2,
+            _ => 3,
         },
     });
     if k2_dropped > 0 {
@@ -821,6 +825,7 @@ struct Totals {
     purity: u64,
     restarts: u64,
     abandoned: u64,
+    skipped_synth: u64,
     unconfirmed: u64,
     all: HashSet<u64>,
     nt: HashSet<u64>,
@@ -867,6 +872,7 @@ fn supervise(plan: &Plan, tier: Tier, b: &Bounds, explicit: Option<Vec<String>>,
     let busy: Vec<AtomicBool> = (0..workers).map(|_| AtomicBool::new(false)).collect();
     let killed: Vec<AtomicBool> = (0..workers).map(|_| AtomicBool::new(false)).collect();
     let wd_factor: Vec<AtomicU64> = (0..workers).map(|_| AtomicU64::new(1)).collect();
+    let deaths_by_target: Mutex<BTreeMap<String, u32>> = Mutex::new(BTreeMap::new());
     let progs: Vec<Arc<Progress>> = (0..workers)
         .map(|i| Arc::new(Progress::open(&dir.join(format!("w{i}.progress"))).expect("progress file")))
         .collect();
@@ -912,8 +918,8 @@ fn supervise(plan: &Plan, tier: Tier, b: &Bounds, explicit: Option<Vec<String>>,
         });
         let mut handles = vec![];
         for wi in 0..workers {
-            let (next, totals, pids, busy, killed, progs, dir, explicit, deadline_hit, hard_stop, wd_factor) =
-                (&next, &totals, &pids, &busy, &killed, &progs, &dir, &explicit, &deadline_hit, &hard_stop, &wd_factor);
+            let (next, totals, pids, busy, killed, progs, dir, explicit, deadline_hit, hard_stop, wd_factor, deaths_by_target) =
+                (&next, &totals, &pids, &busy, &killed, &progs, &dir, &explicit, &deadline_hit, &hard_stop, &wd_factor, &deaths_by_target);
             handles.push(sc.spawn(move || {
                 let mut local = Totals::default();
                 let mut slot: Option<Slot> = None;
@@ -954,6 +960,15 @@ fn supervise(plan: &Plan, tier: Tier, b: &Bounds, explicit: Option<Vec<String>>,
                             let i = next.fetch_add(1, Ordering::SeqCst);
                             if i >= n_units {
                                 break 'outer;
+                            }
+                            if explicit.is_none() {
+                                // a synthesised family whose target already killed 24 workers is not run further:
+                                // the defect is reported, more deaths only cost restarts (reported as a cap)
+                                let sd = &plan.seeds[plan.units[i].seed];
+                                if sd.class == "synth" && deaths_by_target.lock().unwrap().get(&sd.target_name()).copied().unwrap_or(0) >= 24 {
+                                    local.skipped_synth += 1;
+                                    continue 'outer;
+                                }
                             }
                             (i, 0)
                         }
@@ -1123,8 +1138,12 @@ fn supervise(plan: &Plan, tier: Tier, b: &Bounds, explicit: Option<Vec<String>>,
                                 local.abandoned += 1;
                             }
                         }
-                        if local.restarts > 200 {
-                            local.machinery = Some("more than 200 worker restarts in one slot".into());
+                        if explicit.is_none() {
+                            let sd = &plan.seeds[plan.units[ui].seed];
+                            *deaths_by_target.lock().unwrap().entry(sd.target_name()).or_insert(0) += 1;
+                        }
+                        if local.restarts > 2000 {
+                            local.machinery = Some("more than 2000 worker restarts in one slot".into());
                             break 'outer;
                         }
                     }
@@ -1144,6 +1163,7 @@ fn supervise(plan: &Plan, tier: Tier, b: &Bounds, explicit: Option<Vec<String>>,
                 t.purity += local.purity;
                 t.restarts += local.restarts;
                 t.abandoned += local.abandoned;
+                t.skipped_synth += local.skipped_synth;
                 t.unconfirmed += local.unconfirmed;
                 t.units_done += local.units_done;
                 t.all.extend(local.all);
@@ -1171,6 +1191,9 @@ fn supervise(plan: &Plan, tier: Tier, b: &Bounds, explicit: Option<Vec<String>>,
             "deadline of {:.0} s reached: {} of {} units executed (units are taken in plan order)",
             b.deadline_s, t.units_done, n_units
         ));
+    }
+    if t.skipped_synth > 0 {
+        run.cap_hit(&format!("{} synthesised-family units were skipped after their target had already killed 24 workers (the defect is reported; further deaths only cost restarts)", t.skipped_synth));
     }
     if t.abandoned > 0 {
         run.cap_hit(&format!("{} work units were cut short (3 worker deaths in the unit, a death past the deadline, or the hard stop 8 s after the deadline); their remaining cases were not executed", t.abandoned));
